@@ -340,6 +340,29 @@ def run_case(case):
                 break
         obs["gz_files_audited"] = sum(
             1 for k_, m in mimes.items() if audit_cfg["gzip"] and m not in NO_GZ)
+        # ---- a gzip-stored FILE that shares its name with a DIRECTORY of the dataset (a
+        # table "s0" next to the chunks of scale "s0", "labels" next to "labels/v1"): it
+        # lives as NAME.gz beside the directory NAME and is fetched like any other file
+        if not v and kind == "file" and cfg["gzip"] and case["hseed"] % 3 == 0:
+            try:
+                cm = mimes.setdefault(("c", "s0", coords[0]), "application/octet-stream")
+                acc.store_chunk(b"\x07" * 64, "s0", coords[0], mime_type=cm, overwrite=True)
+                chunks[("s0", coords[0])] = b"\x07" * 64
+                twin = b"name,label\n" + _payload(rnd)[:300]
+                acc.store_file("s0", twin, mime_type="application/octet-stream",
+                               overwrite=True)
+                files["s0"] = twin
+                mimes[("f", "s0")] = "application/octet-stream"
+                obs["gzip_files_named_like_a_directory"] = 1
+                got = acc.fetch_file("s0")
+                if got != twin or acc.file_exists("s0") is not True:
+                    v.append({"kind": "fetch-differs-from-last-store",
+                              "detail": f"{ctx}: file 's0' stored (gzip) next to the chunk "
+                              f"directory 's0': fetched {len(got)} bytes, stored {len(twin)}"})
+            except Exception as exc:  # noqa: BLE001
+                v.append({"kind": "fetch-differs-from-last-store",
+                          "detail": f"{ctx}: file 's0' stored (gzip) next to the chunk "
+                          f"directory 's0': {type(exc).__name__}: {str(exc)[:120]}"})
         # ---- cross-configuration reads
         if not v and kind == "file":
             for other in CONFIGS:
@@ -459,6 +482,8 @@ def gates(obs, tier):
         "escape_attempts_refused": obs.get("escape_refused", 0) > 1000,
         "gz_files_audited": obs.get("gz_files_audited", 0) > 100,
         "payloads_beyond_64KiB": obs.get("payloads_over_64KiB", 0) > 20,
+        "gzip_files_named_like_a_directory": obs.get(
+            "gzip_files_named_like_a_directory", 0) > 20,
         "both_command_line_spellings_of_no_gzip": all(
             obs.get("no_gzip_spellings", {}).get(k, 0) > 3
             for k in ("--no-gzip", "--no-compression")),
